@@ -93,9 +93,16 @@ impl<'a> Outlines<'a> {
                 )
             })
             .unwrap_or_default();
+        // Without an OS/2 table, FreeType derives the vertical phantom points
+        // from the hhea ascender and descender.
+        // See <https://gitlab.freedesktop.org/freetype/freetype/-/blob/57617782464411201ce7bbc93b086c1b4d7d84a5/src/truetype/ttgload.c#L126>
         let os2_vmetrics = font
             .os2()
             .map(|os2| [os2.s_typo_ascender(), os2.s_typo_descender()])
+            .or_else(|_| {
+                font.hhea()
+                    .map(|hhea| [hhea.ascender().to_i16(), hhea.descender().to_i16()])
+            })
             .unwrap_or_default();
         let fpgm = font
             .data_for_tag(Tag::new(b"fpgm"))
